@@ -231,7 +231,72 @@ def rule_d4(ctx, facts):
              "a thread that loses the initialisation race does not yield/retry")
 
 
+def rule_d6(ctx, facts, rule="D6"):
+    """tree read lock: a lock-free reader descends the tree (find_tree_node) only after winning CAS(lock_state, s, s + READER) with no
+    WRITER/WAITER bit in s, and gives the READER count back on every path (otherwise the waiting writer sleeps forever / the reader
+    walks a tree that is being rotated)"""
+    WRITER, WAITER, READER = facts.const("WRITER"), facts.const("WAITER"), facts.const("READER")
+    ftn = [b for b in facts.bodies if b.sid.endswith("TreeNode::find_tree_node")]
+    if not ftn:
+        ctx.fail_closed("%s: find_tree_node not found" % rule)
+        return
+    ftn = ftn[0]
+    n = 0
+    for b in facts.bodies:
+        ev = evaluator(b)
+        for c in b.calls:
+            if c.resolved != ftn.id or b.is_cleanup(c.b) or b.id == ftn.id:
+                continue
+            n += 1
+            held = [r for r in held_regions_at(b, c.point) if bin_lock_region(r)]
+            if held:
+                ctx.inst(rule, b, "tree descent by a writer", c.span, True, "inside the bin-lock region opened at %s" % held[0].call.span)
+                continue
+            LS = ("node::TreeBin", "lock_state")
+            won = None
+            for x in b.calls:
+                if is_std_atomic(x) == "compare_exchange" and LS in receiver_field(b, x, 0):
+                    exp, new = ev.operand(x.args[1]), ev.operand(x.args[2])
+                    if exp is not TOP and new is not TOP and new == exp + Aff.const(READER):
+                        oke, _ = ok_edge(b, x)
+                        if oke and dominated_by_edge(b, c.point, [oke]):
+                            won = (x, exp, oke)
+            if not won:
+                ctx.inst(rule, b, "tree descent under the read lock", c.span, False,
+                         "a reader descends the tree at %s without having won the read lock (CAS lock_state s -> s + READER): it can walk a tree that a writer is rotating" % c.span)
+                continue
+            x, exp, oke = won
+            # s had no WRITER / WAITER bit
+            masked = False
+            for blk in range(len(b.blocks)):
+                cd = cond_of(b, blk)
+                if cd and cd["kind"] == "cmp" and cd["op"] in ("Ne", "Eq"):
+                    bb = ev.operand(cd["b"])
+                    al = op_local(cd["a"])
+                    if bb is TOP or not bb.is_const() or bb.c != 0 or al is None:
+                        continue
+                    for pt, kind, data in b.defs.get(al, []):
+                        if kind == "assign" and data["rv"].get("bin") == "BitAnd":
+                            fs = [ev.operand(data["rv"]["a"]), ev.operand(data["rv"]["b"])]
+                            if any(f is not TOP and f == exp for f in fs) and any(f is not TOP and f.is_const() and int(f.c) == (WRITER | WAITER) for f in fs):
+                                free_edge = cd["false"] if cd["op"] == "Ne" else cd["true"]
+                                if dominated_by_edge(b, x.point, [(blk, free_edge)]):
+                                    masked = True
+            rel = {y.point for y in b.calls if is_std_atomic(y) in ("fetch_add", "fetch_sub") and LS in receiver_field(b, y, 0)}
+            r = reach(b, [Point(oke[1], 0)], avoid=rel)
+            leaks = [rp for rp in return_points(b) if rp in r]
+            ok = masked and not leaks
+            ctx.inst(rule, b, "tree descent under the read lock", c.span, ok,
+                     "won CAS s -> s + READER with s & (WRITER|WAITER) == 0; the count is given back on every path" if ok else
+                     ("the read lock is taken although a writer holds or awaits the lock (no test of s & (WRITER|WAITER) == 0 guards the CAS)" if not masked else
+                      "a path returns without decrementing the reader count: the writer waits forever"))
+    if n < 3:
+        ctx.fail_closed("%s: expected the three tree-descent call sites (TreeBin::find, compute_if_present, replace_node), found %d" % (rule, n))
+
+
 def run(ctx, facts):
+    ctx.rule("D6", "readers descend a tree bin only under the read lock (won READER CAS with no WRITER/WAITER), released on every path; writers under the bin lock", floor=3)
+    rule_d6(ctx, facts)
     ctx.rule("D1", "no bin-lock acquisition (direct or through callees) while a bin lock is held", floor=11)
     ctx.rule("D2", "tree write lock: paired on all paths, nothing locked inside, its users called only under the bin lock", floor=4)
     ctx.rule("D3", "park protocol of the contended tree lock; reader unparks on READER|WAITER", floor=2)
